@@ -421,10 +421,62 @@ def whole_programs(ck, n, policies=("default",), shapes=("V", "VV", "VNV", "PV",
     return {"programs": len(meta), "calls_compared_with_the_specification": calls, "raised": raised, "cases": meta}
 
 
+def compare_source(ck, scripts, which, limit=400):
+    """the bodies of is_more_specific / is_base as translated from compiler.hpp on this run (Sel.exec, driver --src)
+    against the compiled functions, on every pair of definitions of every method of the given registries. Validates
+    the translator and the meaning given to its constructors; yields the failing pair when the proofs about the
+    translated source no longer check. `which`: "ms" or "base" decides which matrix makes a violation of this property."""
+    reg_ops = ("policy", "class", "method", "def", "static", "budget")
+    batch = []
+    for name, lines in scripts:
+        if sum(1 for l in lines if l.strip() == "update") != 1:
+            continue
+        k = lines.index("update")
+        pre = [l for l in lines[:k] if l.split() and l.split()[0] in reg_ops]
+        if any(l.startswith("policy") for l in pre):
+            batch.append(("src-" + name, pre + ["update", "cmpmatrix"]))
+        if len(batch) >= limit:
+            break
+    impl_out, _ = verif.run_impl(ck.exe, batch)
+    src_out = verif.run_model(verif.inject_rng(batch, impl_out), mode="--src")
+    pairs = methods = 0
+    first = None
+    for name, lines in batch:
+        a = [l for l in verif.visible(impl_out.get(name, [])) if l.startswith("cmp ")]
+        b = [l for l in src_out.get(name, []) if l.startswith("cmp ")]
+        for x, y in zip(a, b):
+            methods += 1
+            m = re.match(r"cmp (-?\d+) n=(\d+) ms=(\S*) base=(\S*)", x)
+            if m:
+                pairs += int(m.group(2)) ** 2
+            if x != y and first is None:
+                my = re.match(r"cmp (-?\d+) n=(\d+) ms=(\S*) base=(\S*)", y)
+                col = 3 if which == "ms" else 4
+                if m and my and m.group(col) != my.group(col):
+                    n_ = int(m.group(2))
+                    pos = next(i for i, (p_, q_) in enumerate(zip(m.group(col), my.group(col))) if p_ != q_)
+                    first = (name, lines, {"method": int(m.group(1)), "definitions(a, b) by position among the method's definitions": [pos // n_, pos % n_],
+                                           "compiled_function": m.group(col)[pos], "translated_source": my.group(col)[pos],
+                                           "implementation_line": x, "translated_line": y})
+        if len(a) != len(b) and first is None and (a or b):
+            first = (name, lines, {"implementation_lines": a[:3], "translated_lines": b[:3]})
+    if first and not any(f_ for _, f_ in ck.violations):
+        name, lines, detail = first
+        fn = "is_more_specific" if which == "ms" else "is_base"
+        detail.update({"property": ck.prop, "script": lines, "seed": ck.seed,
+                       "kind": "the body of compiler<Policy>::%s as translated from the header on this run (Sel.exec) and the compiled function "
+                               "disagree on a pair of definitions" % fn})
+        ck.violation(verif.write_replay(ck.prop, name, detail), False)
+    return {"file": "lean/Yomm2/Generated/CompareSrc.lean (tools/cpp2lean.py, from clang's AST of detail/compiler.hpp)",
+            "registries": len(batch), "methods": methods, "pairs_of_definitions_compared": pairs,
+            "differences_from_compiled_function": 0 if first is None else 1, "translator_messages": getattr(ck.lean, "notes", [])}
+
+
 def check_C01(ck):
     r = check_dispatch_family(ck, 1200, 20000, "C01: tables, slots, dispatch data and every call outcome")
     wp = whole_programs(ck, tier_n(ck, 12, 90), policies=("default", "default", "::yorel::yomm2::policy::debug"), big_product=(19, 27))
-    std_evidence(ck, ["C01"], *r[:4], extra={"whole_programs": wp})
+    src = compare_source(ck, r[0], "ms")
+    std_evidence(ck, ["C01", "C01src"], *r[:4], extra={"whole_programs": wp, "translated_source_of_is_more_specific": src})
 
 
 def c03_next_cells(scripts, impl_out):
@@ -459,8 +511,10 @@ def check_C03(ck):
     if f and not ck.violations:
         f[2].update(property="C03", script=f[1])
         ck.violation(verif.write_replay("C03", f[0], f[2]), True)
-    std_evidence(ck, ["C03"], scripts, gscripts, stats, impl_out,
-                 {"next_chains_followed": count_lines(impl_out, "ran ["), "methods_whose_next_cells_were_compared_with_the_specification": k})
+    src = compare_source(ck, scripts, "base")
+    std_evidence(ck, ["C03", "C03src"], scripts, gscripts, stats, impl_out,
+                 {"next_chains_followed": count_lines(impl_out, "ran ["), "methods_whose_next_cells_were_compared_with_the_specification": k,
+                  "translated_source_of_is_base": src})
 
 
 def check_C04(ck):
